@@ -53,6 +53,8 @@ type InheritCfg struct {
 	// under the name of block k (a different name at each level, colliding with
 	// blocks the chain defines itself); 0 = no such alias at that level.
 	FrameAlias []int `json:"frame_alias,omitempty"`
+	// UParent: the blocks of the used template "u" end with parent().
+	UParent bool `json:"u_parent,omitempty"`
 }
 
 var blockNames = []string{"a", "b", "c", "d"}
@@ -165,7 +167,11 @@ func BuildInherit(c *InheritCfg) *m.Program {
 		for ni := 0; ni < c.Names; ni++ {
 			if c.UseNames&(1<<uint(ni)) != 0 {
 				name := blockNames[ni]
-				u.Body = append(u.Body, &m.N{K: "block", S: name, Body: []*m.N{m.NText("U." + name + "("), whoCall(), m.NText(")")}})
+				ub := &m.N{K: "block", S: name, Body: []*m.N{m.NText("U." + name + "("), whoCall(), m.NText(")")}}
+				if c.UParent {
+					ub.Body = append(ub.Body, m.NPrint(&m.E{K: "parent"}))
+				}
+				u.Body = append(u.Body, ub)
 			}
 		}
 		if c.Nested {
@@ -173,7 +179,12 @@ func BuildInherit(c *InheritCfg) *m.Program {
 		}
 		for _, fa := range c.FrameAlias {
 			if fa > 0 {
-				u.Body = append(u.Body, &m.N{K: "block", S: "frame", Body: []*m.N{m.NText("U.frame("), whoCall(), m.NText(")")}})
+				fb := &m.N{K: "block", S: "frame", Body: []*m.N{m.NText("U.frame("), whoCall(), m.NText(")")}}
+				if c.UParent {
+					// under its alias the block's parent() is the next definition of the alias name
+					fb.Body = append(fb.Body, m.NPrint(&m.E{K: "parent"}))
+				}
+				u.Body = append(u.Body, fb)
 				break
 			}
 		}
@@ -228,6 +239,7 @@ func GenInherit(t *rapid.T) *InheritCfg {
 			c.FrameAlias = append(c.FrameAlias, fa)
 		}
 	}
+	c.UParent = (c.UseAt >= 0 || c.UseLevels != 0) && rapid.IntRange(0, 2).Draw(t, "uparent") == 0
 	c.FilterFirst = rapid.IntRange(0, 3).Draw(t, "filterfirst") == 0
 	c.ExtendsLast = rapid.Bool().Draw(t, "extlast")
 	return c
